@@ -12,8 +12,8 @@ EXTRACT = "coq/C05/Extract_C05.v"
 DRIVER = "props/C05/driver.ml"
 PROGS = {"c05sim": ["props/C05/unit.cpp"]}
 KB = 0.001987191
-NCOMP = {0: 1, 1: 3, 2: 3, 3: 4}
-NATOMS = {0: 1, 1: 2, 2: 2, 3: 4}
+NCOMP = {0: 1, 1: 3, 2: 3, 3: 4, 4: 6}      # 4: vector1d, a `cartesian` component of two atoms
+NATOMS = {0: 1, 1: 2, 2: 2, 3: 4, 4: 2}
 QREF = [(1.0, 0.0, 0.0), (0.0, 1.0, 0.0), (0.0, 0.0, 1.0), (-1.0, -1.0, -1.0)]
 
 
@@ -56,7 +56,7 @@ def gen_scn(r, k, forced=None):
     for d in range(nd):
         v = {"kind": 0}
         if not use_grids and r.random() < f.get("p_vector", 0.5):
-            v["kind"] = r.choice([1, 2, 3])
+            v["kind"] = r.choice([1, 2, 3, 4])
         v["w"] = r.choice([1.0, 0.5, 0.25, 2.0])
         v["nx"] = r.randint(3, 6) if nd == 3 else r.randint(4, 12)
         if f.get("big_grids"):
@@ -96,6 +96,10 @@ def gen_scn(r, k, forced=None):
         v["upper"] = v["lower"] + v["w"] * v["nx"]
         v["sigma"] = v["w"] * r.choice([0.5, 1.0, 1.5]) if sig_mode else v["w"] * hw / 2.0
         vars_.append(v)
+    if nd == 3:
+        # (cost of the model's grids: at most one expanding variable in three dimensions)
+        for v in [v for v in vars_ if v["expand"]][1:]:
+            v["expand"] = False
     c = {"id": k, "vars": vars_, "use_grids": use_grids, "sig_mode": sig_mode, "hw": 0.0 if sig_mode else hw,
          "W": r.choice([0.125, 0.5, 1.0]), "freq": f.get("freq", r.choice([1, 1, 2, 2, 3, 4])),
          "keep": f.get("keep", r.random() < 0.5), "wt": f.get("wt", r.random() < 0.4), "bt": r.choice([300.0, 1000.0, 3000.0]),
@@ -108,12 +112,27 @@ def gen_scn(r, k, forced=None):
         c["eb"] = {"raw": [r.choice([0.0, 0.5, 1.0, 1.0, 2.0, 4.0, 8.0]) for _ in range(nt)], "equil": r.choice(f.get("equil", [0, 0, 3, 6, 20]))}
         if not any(c["eb"]["raw"]):
             c["eb"]["raw"][0] = 1.0
-    c["pmf"] = use_grids and not c["eb"] and r.random() < f.get("p_pmf", 0.2)
+        if r.random() < 0.4:        # targetDistMinVal: a fraction of the maximum, or 0 = the smallest positive value
+            c["eb"]["minval"] = r.choice([0.0, 0.25, 0.001, 0.5])
+    c["pmf"] = use_grids and r.random() < f.get("p_pmf", 0.2)
+    if nd == 3 and any(v["expand"] for v in vars_):
+        c["pmf"] = False       # (cost: the free-energy file of a 3-D grid that expands, evaluated bin by bin in the model)
     c["pmf_keep"] = c["pmf"] and r.random() < 0.4
     c["gfreq_explicit"] = use_grids and f.get("gfreq_explicit", r.random() < 0.4)
     c["gfreq"] = f.get("gfreq", r.choice([1, 2, 3, 4, 6])) if c["gfreq_explicit"] else c["freq"]
     c["it0"] = r.randint(0, 9) if r.random() < f.get("p_it0", 0.3) else 0
     c["binary"] = r.random() < 0.35          # format of the state files (formatted text or binary stream)
+    c["tsf"] = r.choice([2, 3, 5]) if r.random() < f.get("p_tsf", 0.15) else 1     # timeStepFactor of the bias
+    c["medium"] = "mem" if r.random() < 0.4 else "file"    # read back from the file, or from a memory buffer / a string
+    if r.random() < f.get("p_bigstep", 0.15):
+        # step numbers beyond int and beyond the integers a double holds exactly
+        c["it0"] = r.choice([2 ** 31 - 3, 2 ** 32 - 2, 2 ** 53 - 5, 2 ** 62 - 60]) + r.randint(0, 11)
+    if r.random() < 0.3:                     # frequencies that are not powers of two
+        c["freq"] = f.get("freq", r.choice([3, 3, 5, 6, 7, 12]))
+        if c["gfreq_explicit"]:
+            c["gfreq"] = f.get("gfreq", r.choice([3, 5, 6, 7, 12]))
+        else:
+            c["gfreq"] = c["freq"]
     nsteps = r.randint(8, 30)
     p_out = f.get("p_out", r.choice([0.0, 0.1, 0.25]))
     p_save = f.get("p_save", r.choice([0.0, 0.0, 0.08]))
@@ -122,6 +141,7 @@ def gen_scn(r, k, forced=None):
     can_rebin_grids = use_grids and not c["keep"] and not c["eb"] and nd < 3     # (84^3 bins dumped at every step otherwise)
     rebin_on = False
     p_reconf = f.get("p_reconf", 0.3)
+    keep_now = c["keep"] and use_grids
     events = []
     prev = None
     cur = [dict(lower=v["lower"], upper=v["upper"], nx=v["nx"]) for v in vars_]   # current boundaries of the configuration
@@ -130,12 +150,16 @@ def gen_scn(r, k, forced=None):
             m = r.random()
             if r.random() < p_reconf:
                 # the run that reads the state is configured with other hill parameters than the run that wrote it
-                events.append(("reconf", gen_par(r, c)))
+                events.append(("reconf", gen_par(r, c, keep_now)))
                 rebin_on = False
+                if keep_now and not events[-1][1]["keep"]:
+                    keep_now = False
+                    can_rebin = can_rebin_grids = False     # (rebinning restarts only while the configuration of the first run holds)
             elif m < 0.25 and not rebin_on:
                 # (an instance configured with rebinGrids rebins again, onto its configured boundaries, at every state it
                 # reads: a reload there is a second rebinning, not modelled)
-                events.append(("reload",))
+                # through the module (`load`) or through the bias alone (`cv bias m save` / `cv bias m load`)
+                events.append(("reload",) if r.random() < 0.6 else ("breload",))
             elif can_rebin_grids and m < 0.6:
                 # rebinning from the grids of the state (no keepHills): the current grids extended by whole bins where
                 # expandBoundaries allows (40 bins: beyond any expansion these histories can reach)
@@ -191,6 +215,14 @@ def gen_scn(r, k, forced=None):
                         z += [sg[k] * a[perm[k]] + r.randint(-2, 2) / 8.0 for k in range(3)]
                 zs.append(z)
                 continue
+            if v["kind"] == 4:
+                # positions of the two atoms: the six entries of the vector
+                if prev is not None and r.random() < 0.6:
+                    z = [p_ + r.randint(-4, 4) / 8.0 for p_ in prev[d]]
+                else:
+                    z = [r.randint(-16, 16) / 8.0 for _ in range(6)]
+                zs.append(z)
+                continue
             if v["kind"] != 0:
                 # position of the second atom (the first one sits at the origin)
                 if prev is not None and r.random() < 0.6:
@@ -233,14 +265,48 @@ def gen_scn(r, k, forced=None):
             boundary = True          # the step at which the state was written is computed again
         events.append(("step", boundary, zs))
     c["events"] = events
+    # things that must not matter to the bias m: a configuration rejected in the middle of the session (a second
+    # metadynamics bias with a negative width, a variable with an unknown component), and a second metadynamics bias on the
+    # same variables, alive for a few steps and then deleted
+    c["noise"] = []
+    if r.random() < f.get("p_noise", 0.3):
+        for _ in range(r.randint(1, 3)):
+            c["noise"].append((r.randint(1, nsteps - 1), r.choice(["badbias", "badcolvar", "second"]), r.randint(1, 4)))
+    if r.random() < f.get("p_scale", 0.15) and all(v["kind"] == 0 for v in vars_) and not c["eb"] and not has_restart(c):
+        rescale(c, r.choice([-27, -13, 20, 27]))
     return c
 
 
-def gen_par(r, c):
+def rescale(c, k):
+    """the same scenario with every length multiplied by 2^k (exact): boundaries, widths, periods, positions, sigmas"""
+    m = 2.0 ** k
+    for v in c["vars"]:
+        for key in ("w", "lower", "upper", "sigma", "P", "c"):
+            if key in v:
+                v[key] *= m
+    ev = []
+    for e in c["events"]:
+        if e[0] == "step":
+            ev.append(("step", e[1], [z * m for z in e[2]]))
+        elif e[0] == "rebin":
+            ev.append(("rebin", [(nx, lo * m, up * m) for (nx, lo, up) in e[1]]))
+        elif e[0] == "reconf":
+            ev.append(("reconf", dict(e[1], sigmas=[t * m for t in e[1]["sigmas"]])))
+        else:
+            ev.append(e)
+    c["events"] = ev
+    c["scale"] = k
+    # (a state, formatted or binary, holds the grid boundaries as text with 14 significant digits: exact for the dyadic
+    # values at unit scale, not for these; a restart then moves the lattice by 1e-14 relative.  That is the state format,
+    # C03's subject: only histories without restarts are rescaled)
+
+
+def gen_par(r, c, keep=False):
     """hill parameters of a later run: hillWidth or gaussianSigmas, hillWeight, newHillFrequency, gridsUpdateFrequency,
     wellTempered on or off, biasTemperature"""
     q = {"W": r.choice([0.125, 0.5, 1.0, 2.0]), "freq": r.choice([1, 1, 2, 3]), "gfreq": r.choice([1, 1, 2, 3, 4]),
-         "wt": c["wt"] if r.random() < 0.6 else not c["wt"], "bt": r.choice([300.0, 1000.0, 3000.0])}
+         "wt": c["wt"] if r.random() < 0.6 else not c["wt"], "bt": r.choice([300.0, 1000.0, 3000.0]),
+         "keep": keep and r.random() < 0.6}        # keepHills stays on, or is switched off (never on: see keep_witness)
     if r.random() < 0.3:
         q.update({"sig_mode": True, "hw": 0.0, "sigmas": [v["w"] * r.choice([0.25, 0.5, 1.0, 1.5, 2.0]) for v in c["vars"]]})
     else:
@@ -251,7 +317,7 @@ def gen_par(r, c):
 
 def par0(c):
     return {"sig_mode": c["sig_mode"], "hw": c["hw"], "sigmas": [v["sigma"] for v in c["vars"]], "W": c["W"], "freq": c["freq"],
-            "gfreq": c["gfreq"], "wt": c["wt"], "bt": c["bt"]}
+            "gfreq": c["gfreq"], "wt": c["wt"], "bt": c["bt"], "keep": c["keep"]}
 
 
 def step_events(c):
@@ -271,6 +337,8 @@ def steps_of(c):
             continue
         if e[0] == "reload":
             run_start = it          # the same instance: relative steps restart, the next step is not a first step
+            continue
+        if e[0] == "breload":       # the bias alone reads its state: the module's step counters are untouched
             continue
         if e[0] != "step":
             continue
@@ -317,6 +385,8 @@ def config_text(c, geom=None, rebin=False, par=None):
             if v["periodic"]:
                 L += ["    period %r" % v["P"], "    wrapAround %r" % v["c"]]
             L += ["  }", "}"]
+        elif v["kind"] == 4:
+            L += ["  cartesian {", "    atoms { atomNumbers %d %d }" % (first[d], first[d] + 1), "  }", "}"]
         elif v["kind"] == 3:
             L += ["  orientation {", "    atoms { atomNumbers %d %d %d %d }" % tuple(first[d] + k for k in range(4)),
                   "    refPositions " + " ".join("(%r, %r, %r)" % a for a in QREF), "  }", "}"]
@@ -337,7 +407,7 @@ def config_text(c, geom=None, rebin=False, par=None):
             L.append("  keepFreeEnergyFiles on")
         if c["gfreq_explicit"] or par is not None:
             L.append("  gridsUpdateFrequency %d" % q["gfreq"])
-        if c["keep"]:
+        if q["keep"]:
             L.append("  keepHills on")
         if rebin:
             L.append("  rebinGrids on")
@@ -347,6 +417,10 @@ def config_text(c, geom=None, rebin=False, par=None):
         L.append("  stepZeroData on")
     if c.get("eb"):
         L += ["  ebMeta on", "  targetDistFile %s" % target_file_name(c), "  ebMetaEquilSteps %d" % c["eb"]["equil"]]
+        if c["eb"].get("minval") is not None:
+            L.append("  targetDistMinVal %r" % c["eb"]["minval"])
+    if c.get("tsf", 1) > 1:
+        L.append("  timeStepFactor %d" % c["tsf"])
     L += ["  " + t for t in c.get("meta_extra", [])]
     L += ["}", "EOF", "show atomf 0 energy 0 af 1 bias 1"]
     if c.get("eb"):
@@ -381,8 +455,14 @@ def target_processed(c):
     """the target distribution as ebMeta uses it: small values raised to 1e-6 of the maximum, normalised to integral
     1, multiplied by the effective volume exp(entropy) (init_ebmeta_params)"""
     d = list(c["eb"]["raw"])
-    thr = max(d) * (1 / 1000000.0)
-    d = [max(t, thr) for t in d]
+    mv = c["eb"].get("minval")
+    if mv == 0.0:
+        # targetDistMinVal 0: zeros are raised to the smallest positive value
+        thr = min(t for t in d if t > 0.0)
+        d = [max(t, thr) for t in d] if min(d) == 0.0 else d
+    else:
+        thr = max(d) * (1 / 1000000.0 if mv is None else mv)
+        d = [max(t, thr) for t in d]
     vol = 1.0
     for v in c["vars"]:
         vol *= v["w"]
@@ -412,8 +492,10 @@ def scenario_text(c, dump=True):
         if v["kind"] in (1, 2):
             L.append("pos %d 0 0 0" % first[d])
     nstate = 0
+    nstep = 0
     par = None
     fmt = "binary" if c.get("binary") else "text"
+    load = "load" if c.get("medium", "file") == "file" else ("loadbuf" if c.get("binary") else "loadstr")
     for e in c["events"]:
         if e[0] == "save":
             L.append("save %s c05.state" % fmt)
@@ -423,7 +505,11 @@ def scenario_text(c, dump=True):
             continue
         if e[0] == "reload":
             nstate += 1
-            L += ["save %s c05l%d.state" % (fmt, nstate), "load c05l%d.state" % nstate]
+            L += ["save %s c05l%d.state" % (fmt, nstate), "%s c05l%d.state" % (load, nstate)]
+            continue
+        if e[0] == "breload":
+            nstate += 1
+            L += ["script cv bias m save c05b%d" % nstate, "script cv bias m load c05b%d" % nstate]
             continue
         if e[0] in ("restart", "rebin", "reconf"):
             # the state is written, a fresh instance reads it (for "rebin": with new boundaries and rebinGrids on; for
@@ -433,12 +519,17 @@ def scenario_text(c, dump=True):
             if e[0] == "reconf":
                 par = e[1]
             L += config_text(c, e[1], True, par) if e[0] == "rebin" else config_text(c, None, False, par)
-            L.append("load c05r%d.state" % nstate)
+            L.append("%s c05r%d.state" % (load, nstate))
             continue
         boundary, zs = e[1], e[2]
+        L += noise_text(c, nstep)
+        nstep += 1
         for d, z in enumerate(zs):
             if c["vars"][d]["kind"] == 0:
                 L.append("pos %d 0 0 %s" % (first[d], V.hexf(z)))
+            elif c["vars"][d]["kind"] == 4:
+                for k in range(2):
+                    L.append("pos %d %s %s %s" % (first[d] + k, V.hexf(z[3 * k]), V.hexf(z[3 * k + 1]), V.hexf(z[3 * k + 2])))
             elif c["vars"][d]["kind"] == 3:
                 for k in range(4):
                     L.append("pos %d %s %s %s" % (first[d] + k, V.hexf(z[3 * k]), V.hexf(z[3 * k + 1]), V.hexf(z[3 * k + 2])))
@@ -452,11 +543,41 @@ def scenario_text(c, dump=True):
     return "\n".join(L) + "\n"
 
 
-def model_case(c, xs, dump=True):
+def second_alive(c):
+    """indices of the step events during which the second bias m2 exists"""
+    out = set()
+    nst = len(step_events(c))
+    for (k, kind, dur) in c.get("noise", []):
+        if kind == "second":
+            out |= set(range(k, min(nst, k + dur)))
+    return out
+
+
+def noise_text(c, n):
+    """commands issued before step event n that must leave the bias m as it is"""
+    L = []
+    names = " ".join("v%d" % d for d in range(len(c["vars"])))
+    alive = second_alive(c)
+    if n > 0 and n in alive and (n - 1) not in alive or (n == 0 and 0 in alive):
+        L += ["config EOF", "metadynamics {", "  name m2", "  colvars " + names, "  hillWeight 0.25", "  newHillFrequency 1",
+              "  hillWidth 1.5"] + ([] if c["use_grids"] else ["  useGrids off"]) + ["}", "EOF"]
+    if n > 0 and (n - 1) in alive and n not in alive:
+        L.append("script cv bias m2 delete")
+    for (k, kind, dur) in c.get("noise", []):
+        if k != n:
+            continue
+        if kind == "badbias":
+            L += ["config EOF", "metadynamics {", "  name mbad", "  colvars " + names, "  hillWeight 1.0", "  hillWidth -1.0", "}", "EOF"]
+        elif kind == "badcolvar":
+            L += ["config EOF", "colvar {", "  name vbad", "  nosuchcomponent {", "    group1 { atomNumbers 1 }", "  }", "}", "EOF"]
+    return L
+
+
+def model_case(c, xs, dump=True, foreign=None):
     """xs: the values of the variables at every step (list of lists of component lists)"""
     p = ["META", str(len(c["vars"]))]
     for v in c["vars"]:
-        p += [str(v["kind"]), "1" if v["periodic"] else "0", V.hexf(v.get("P", 1.0)), V.hexf(v["sigma"]), V.hexf(v["w"]),
+        p += [str(v["kind"] if v["kind"] < 4 else 100 + NCOMP[v["kind"]]), "1" if v["periodic"] else "0", V.hexf(v.get("P", 1.0)), V.hexf(v["sigma"]), V.hexf(v["w"]),
               "1" if v["gper"] else "0", "1" if v["expand"] else "0", "1" if v["hlo"] else "0", "1" if v["hup"] else "0",
               V.hexf(v["lower"]), V.hexf(v["upper"]), str(v["nx"])]
     p += [V.hexf(c["W"]), V.hexf(c["hw"]), str(c["freq"]), str(c["gfreq"]), "1" if c["use_grids"] else "0",
@@ -468,24 +589,34 @@ def model_case(c, xs, dump=True):
     else:
         p += ["0", "0", "0"]
     st = steps_of(c)
-    p.append(str(len(c["events"])))
+    tsf = c.get("tsf", 1)
+    asleep = sum(1 for t in st if t[0] % tsf != 0)
+    skip_pmf = bool(c.get("eb"))       # the ebMeta correction of the free-energy file is the oracle's, not the model's
+    p.append(str(len(c["events"]) - asleep + (1 if foreign else 0) - (sum(1 for e in c["events"] if e[0] == "pmf") if skip_pmf else 0)))
     n = 0
     for e in c["events"]:
+        if foreign and e[0] == "step" and n == foreign[0]:
+            # hills received from the other walkers at this step: it, weight, centres, widths
+            p += ["F", str(len(foreign[1]))]
+            for h in foreign[1]:
+                p += [str(h[0]), V.hexf(h[1])] + [V.hexf(t) for cv in h[2] for t in cv] + [V.hexf(t) for t in h[3]]
         if e[0] == "save":
             p.append("W")
             continue
         if e[0] == "restart":
             p.append("R")
             continue
-        if e[0] == "reload":
+        if e[0] in ("reload", "breload"):
             p.append("L")
             continue
         if e[0] == "reconf":
             p += ["C"] + [V.hexf(t) for t in e[1]["sigmas"]] + [V.hexf(e[1]["hw"]), V.hexf(e[1]["W"]), str(e[1]["freq"]),
-                                                                str(e[1]["gfreq"]), "1" if e[1]["wt"] else "0", V.hexf(e[1]["bt"])]
+                                                                str(e[1]["gfreq"]), "1" if e[1]["wt"] else "0", V.hexf(e[1]["bt"]),
+                                                                "1" if e[1].get("keep", c["keep"]) else "0"]
             continue
         if e[0] == "pmf":
-            p += ["P", V.hexf(PMF_TEMP)]
+            if not skip_pmf:
+                p += ["P", V.hexf(PMF_TEMP)]
             continue
         if e[0] == "rebin":
             p.append("B")
@@ -493,7 +624,8 @@ def model_case(c, xs, dump=True):
                 p += [V.hexf(lo), V.hexf(up), str(nx)]
             continue
         it, rel, cont, _ = st[n]
-        p += ["S", str(it), str(rel), "1" if cont else "0"] + [V.hexf(t) for xv in xs[n] for t in xv]
+        if it % tsf == 0:       # the bias sleeps at the other steps: they are not events of its history
+            p += ["S", str(it), str(rel), "1" if cont else "0"] + [V.hexf(t) for xv in xs[n] for t in xv]
         n += 1
     return " ".join(p)
 
@@ -589,7 +721,8 @@ def parse_impl(c, text):
         elif w[0] == "AF":
             cur["af"].append([fh(t) for t in w[2:]])
         elif w[0] == "BIAS":
-            cur["bias"] = fh(w[2])
+            if w[1] == "m":
+                cur["bias"] = fh(w[2])
         elif w[0] == "META":
             if w[1] == "none":
                 cur["nometa"] = True
@@ -671,7 +804,7 @@ def hills_close(a, b, exact=True):
 
 
 def has_restart(c):
-    return any(e[0] in ("restart", "rebin", "reload", "reconf") for e in c["events"])
+    return any(e[0] in ("restart", "rebin", "reload", "reconf", "breload") for e in c["events"])
 
 
 def vec_close(a, b):
@@ -680,6 +813,13 @@ def vec_close(a, b):
 
 def force_close(a, b):
     return a is not None and b is not None and len(a) == len(b) and all(vec_close(p, q) for p, q in zip(a, b))
+
+
+def force_same(a, b):
+    """equal forces for the tie: components close, or not-a-number on both sides (a unit vector exactly opposite to a hill
+    centre in range gives inf - inf in the implementation and in the model alike)"""
+    return a is not None and b is not None and len(a) == len(b) and all(
+        len(p) == len(q) and all((t != t and u != u) or close(t, u) for t, u in zip(p, q)) for p, q in zip(a, b))
 
 
 def tangential(c, F, x):
@@ -705,7 +845,7 @@ def compare_step(c, im, mo):
         # (a unit vector exactly opposite to a hill centre gives +-inf components on both sides: compared as they are)
         if not force_close(tangential(c, im["F"], im["cv"]), tangential(c, mo["F"], im["cv"])):
             return "force"
-    elif not force_close(im["F"], mo["F"]):
+    elif not force_same(im["F"], mo["F"]):
         return "force"
     ex = not has_restart(c)
     if (im["nhills"], im["nnew"]) != (mo["nhills"], mo["nnew"]) or not hills_close(im["hills"], mo["hills"], ex):
@@ -739,7 +879,7 @@ def clampdot(a, b):
 def dist2(v, x, ctr):
     if v["kind"] == 0:
         return pdiff(v, x[0], ctr[0]) ** 2
-    if v["kind"] == 1:
+    if v["kind"] in (1, 4):
         return sum((a - b) ** 2 for a, b in zip(x, ctr))
     if v["kind"] == 3:
         co = sum(a * b for a, b in zip(x, ctr))
@@ -753,7 +893,7 @@ def dgrad(v, x, ctr):
     """derivative of dist2 with respect to x (for a unit vector: the implemented tangential form, along the centre)"""
     if v["kind"] == 0:
         return [2 * pdiff(v, x[0], ctr[0])]
-    if v["kind"] == 1:
+    if v["kind"] in (1, 4):
         return [2 * (a - b) for a, b in zip(x, ctr)]
     if v["kind"] == 3:
         co = sum(a * b for a, b in zip(x, ctr))
@@ -831,8 +971,11 @@ def oracle(c, impl, traj):
     st = steps_of(c)
     tab, pend = [], []
     facts = {"deposits": 0, "projections": 0, "outside_steps": 0, "expansions": 0, "saves": 0, "wt_outside": 0,
-             "wrapped_steps": 0, "restarts": 0, "rebins": 0, "antipodal_steps": 0, "ebmeta_deposits": 0, "reloads": 0, "rebins_from_grids": 0, "bound_checks": 0, "bound_max_ratio": 0.0, "pmf_files": 0, "reconfs": 0, "hetero_steps": 0}
+             "wrapped_steps": 0, "restarts": 0, "rebins": 0, "antipodal_steps": 0, "ebmeta_deposits": 0, "reloads": 0, "rebins_from_grids": 0, "bound_checks": 0, "bound_max_ratio": 0.0, "pmf_files": 0, "reconfs": 0, "hetero_steps": 0, "asleep_steps": 0}
     cur = par0(c)          # the hill parameters of the current run
+    tsf = c.get("tsf", 1)
+    last_awake = None
+    alive2 = second_alive(c)     # while a second bias acts on the same variables the applied force is the sum of both
     restarted = False
     off_at_restart = []
     lingering = False      # after a restart without keepHills the hills near the edges stay listed until the next projection
@@ -861,6 +1004,9 @@ def oracle(c, impl, traj):
             for g in geomp:
                 idx = [i + [b] for i in idx for b in range(g[0])]
             Eb = [esum(c, [[g[1] + v["w"] * (0.5 + b)] for v, g, b in zip(c["vars"], geomp, ix)], tab) for ix in idx]
+            if c.get("eb"):
+                # ebMeta: the free energy is corrected by kT ln(target distribution) before the maximum is taken
+                Eb = [t + PMF_TEMP * KB * math.log(q) for t, q in zip(Eb, target_processed(c))]
             scale = (cur["bt"] + PMF_TEMP) / cur["bt"] if cur["wt"] else 1.0
             exp_ = [(max(Eb) - t) * scale for t in Eb]
             name = "c05p_%s%s.pmf" % (c["id"], (".%d" % st[n][0]) if c.get("pmf_keep") and n >= 0 else (".%d" % c["it0"] if c.get("pmf_keep") else ""))
@@ -870,9 +1016,10 @@ def oracle(c, impl, traj):
             if dumps[k][0] != name:
                 return ("pmf:file-name", "free-energy file %d is named %r, expected %r" % (k, dumps[k][0], name), max(n, 0)), facts
             continue
-        if e[0] in ("restart", "rebin", "reload", "reconf"):
+        if e[0] in ("restart", "rebin", "reload", "reconf", "breload"):
+            last_awake = None
             facts["restarts"] += 1
-            if e[0] == "reload":
+            if e[0] in ("reload", "breload"):
                 facts["reloads"] += 1
             if e[0] == "reconf":
                 facts["reconfs"] += 1
@@ -884,23 +1031,34 @@ def oracle(c, impl, traj):
                     facts["projections"] += 1
                 tab += pend
                 pend = []
-                lingering = not c["keep"]
+                lingering = not cur["keep"]
                 if e[0] == "rebin":
                     facts["rebins"] += 1
-                    if not c["keep"]:
+                    if not cur["keep"]:
                         facts["rebins_from_grids"] += 1
                     prev_geom = [tuple(g) for g in e[1]]
             continue
         n += 1
         it, rel, cont, zs = st[n]
         im = impl[n]
+        if it % tsf != 0:
+            # the bias sleeps: no hill, energy and forces are those of its last update (if this instance had one)
+            facts["asleep_steps"] += 1
+            if traj and traj[0][0] == it and (n + 1 == len(st) or st[n + 1][0] != it) and (n == 0 or st[n - 1][0] != it):
+                return ("schedule:hill-while-asleep", "step %d (it=%d): a hill was added at a step that is not a multiple of "
+                        "timeStepFactor %d" % (n, it, tsf), n), facts
+            if last_awake is not None and (im["E"] != last_awake["E"] or im["F"] != last_awake["F"]):
+                return ("asleep:bias-changed", "step %d (it=%d): the bias sleeps (timeStepFactor %d) but its energy/forces "
+                        "changed: %r %s -> %r %s" % (n, it, tsf, last_awake["E"], last_awake["F"], im["E"], im["F"]), n), facts
+            continue
+        last_awake = im
         x = im["cv"]
         # the history imposed on the module: exact for the scalar variables
         bad_hist = im["it"] != it or len(x) != nd
         for v, z, xv in zip(c["vars"], zs, x):
             if v["kind"] == 0 and xv != [expected_scalar(v, z)]:
                 bad_hist = True
-            if v["kind"] == 1 and xv != z:
+            if v["kind"] in (1, 4) and xv != z:
                 bad_hist = True
         if bad_hist:
             return ("harness:history", "step %d: imposed (it=%d, z=%s) but the module saw (it=%d, x=%s)" % (n, it, zs, im["it"], x), n), facts
@@ -1000,7 +1158,7 @@ def oracle(c, impl, traj):
             lingering = False
         # which hills must still be listed explicitly
         if c["use_grids"]:
-            explicit = (tab + pend) if c["keep"] else pend
+            explicit = (tab + pend) if cur["keep"] else pend
         else:
             explicit = tab + pend
         listed = im["hills"]
@@ -1036,7 +1194,7 @@ def oracle(c, impl, traj):
                     any(h[3] != cur["sigmas"] and not any(g[0] == h[0] and g[2] == h[2] for g in im["off"]) and kern(c, x, h) != 0.0 for h in tab):
                 # a hill wider than those of the current run, in range of x, is not among the hills kept for use off the grid
                 sig = "reconf:off-grid-margin-from-configured-width"
-            elif hetero and (not c["use_grids"] or not ins or c["keep"]) and close(im["E"], spec_bias(c, geom, x, asconf[0], asconf[1])[0]):
+            elif hetero and (not c["use_grids"] or not ins or cur["keep"]) and close(im["E"], spec_bias(c, geom, x, asconf[0], asconf[1])[0]):
                 # the energy is what the hills would give if all of them had the widths of the current configuration
                 sig = "widths:hills-evaluated-with-the-configured-width-not-their-own"
             elif c["use_grids"] and not ins and restarted and e[0] == "step" and \
@@ -1069,7 +1227,7 @@ def oracle(c, impl, traj):
             if dev > bound * (1 + 1e-9) + 1e-12:
                 return ("discretisation:bound-exceeded", "step %d (it=%d, x=%s): energy %r differs from the analytic sum of all hills %r by "
                         "more than sum|W| * (exp(-1/2) sum w/(2 sigma) + exp(-23/2)) = %r" % (n, it, x, im["E"], esum(c, x, tab + pend), bound), n), facts
-        if im.get("bias") != im["E"] or im["af"] != im["F"]:
+        if im.get("bias") != im["E"] or (im["af"] != [[tsf * t for t in f_] for f_ in im["F"]] and n not in alive2):
             return ("applied:bias-output", "step %d: bias energy/applied force reported by the module (%r, %s) differ from "
                     "the bias's own (%r, %s)" % (n, im.get("bias"), im["af"], im["E"], im["F"]), n), facts
     return None, facts
@@ -1083,8 +1241,8 @@ def _var(lower=0.0, nx=8, w=1.0, sigma=1.0, expand=False, **kw):
     return v
 
 
-def _par(sigmas, hw=0.0, W=1.0, freq=1, sig_mode=False, gfreq=1, wt=False, bt=300.0):
-    return {"sig_mode": sig_mode, "hw": hw, "sigmas": list(sigmas), "W": W, "freq": freq, "gfreq": gfreq, "wt": wt, "bt": bt}
+def _par(sigmas, hw=0.0, W=1.0, freq=1, sig_mode=False, gfreq=1, wt=False, bt=300.0, keep=False):
+    return {"sig_mode": sig_mode, "hw": hw, "sigmas": list(sigmas), "W": W, "freq": freq, "gfreq": gfreq, "wt": wt, "bt": bt, "keep": keep}
 
 
 def _cfg(cid, vars_, events, **kw):
@@ -1139,6 +1297,12 @@ def witnesses():
         _cfg("w_ebmeta_wt", [_var()], [[3.5], [3.5], [3.5], [-0.25], [3.25]], wt=True,
              eb={"raw": [1.0, 2.0, 4.0, 8.0, 8.0, 4.0, 2.0, 1.0], "equil": 0}),
         # ebMeta with the default ebMetaEquilSteps 0 and a hill at step 0 (stepZeroData)
+        _cfg("w_ebmeta_minval0", [_var()], [[3.5], [3.5], [0.5], [7.5], [2.5]],
+             eb={"raw": [0.0, 2.0, 4.0, 8.0, 8.0, 4.0, 0.5, 0.0], "equil": 0, "minval": 0.0}),
+        _cfg("w_ebmeta_minval", [_var()], [[3.5], [3.5], [0.5], [7.5], [2.5]],
+             eb={"raw": [0.0, 2.0, 4.0, 8.0, 8.0, 4.0, 0.5, 0.0], "equil": 0, "minval": 0.25}),
+        _cfg("w_ebmeta_pmf", [_var()], [[3.5], [3.5], [0.5], "pmf", [7.5], [2.5], "pmf"], pmf=True,
+             eb={"raw": [1.0, 2.0, 4.0, 8.0, 8.0, 4.0, 2.0, 1.0], "equil": 0}),
         _cfg("w_ebmeta_step0", [_var()], [[3.5], [3.5], [2.5]], stepzero=True,
              eb={"raw": [1.0, 2.0, 4.0, 8.0, 8.0, 4.0, 2.0, 1.0], "equil": 0}),
         # ebMeta: the ramp runs on the absolute step: a job started at step 5, and one restarted inside / after the ramp
@@ -1159,10 +1323,12 @@ def witnesses():
         _cfg("w_reconf_grid_wider", [_var(sigma=0.5)], [[4.5], [4.5], [0.5], ("reconf", _par([2.0], hw=4.0, W=2.0)), [0.5], [-0.25], [5.5], [-1.5]], hw=1.0),
         _cfg("w_reconf_sigmas", [_var(), _var(nx=4, w=2.0, sigma=2.0)], [[3.5, 4.5], [3.5, 4.5], [0.5, 1.0], ("reconf", _par([0.5, 3.0], sig_mode=True)),
                                                                  [0.5, 1.0], [-0.25, 1.0], [0.5, -0.5], [2.5, 3.0]], gfreq_explicit=True, gfreq=2),
-        _cfg("w_reconf_rebin", [_var(nx=12)], [[5.5], [5.5], [6.5], ("reconf", _par([0.5], hw=1.0)), [6.5], [4.5], ("rebin", [(8, 2.5, 10.5)]), [4.5], [2.25], [10.75], [5.0]], keep=True),
+        _cfg("w_reconf_rebin", [_var(nx=12)], [[5.5], [5.5], [6.5], ("reconf", _par([0.5], hw=1.0, keep=True)), [6.5], [4.5], ("rebin", [(8, 2.5, 10.5)]), [4.5], [2.25], [10.75], [5.0]], keep=True),
         # wellTempered switched on (biasTemperature 1000), then off again, and gridsUpdateFrequency 1 -> 3, between runs
         _cfg("w_reconf_wt", [_var()], [[3.5], [3.5], [3.25], ("reconf", _par([1.0], hw=2.0, wt=True, bt=1000.0, gfreq=3)), [3.25], [3.5], [3.0], [-0.25],
                                       ("reconf", _par([1.0], hw=2.0)), [-0.25], [3.5], [3.5]]),
+        # keepHills switched off between runs: the hills of the state stay listed until the next projection, then go
+        _cfg("w_reconf_keep_off", [_var()], [[3.5], [3.5], [0.5], ("reconf", _par([1.0], hw=2.0, keep=False, gfreq=2)), [0.5], [3.25], [-0.25], [3.5], [-0.5]], keep=True),
         _cfg("w_reconf_expand", [_var(expand=True)], [[3.5], [3.5], [1.5], ("reconf", _par([0.5], hw=1.0)), [1.5], [0.25], [-0.25], [-1.5]]),
         # vector variables without grids
         _cfg("w_vec3", [_var(kind=1)], [[[1.0, 0.0, 0.5]], [[1.0, 0.25, 0.5]], [[0.5, 0.25, 0.5]], [[0.5, 0.5, 0.0]]], use_grids=False, wt=True),
@@ -1170,6 +1336,8 @@ def witnesses():
                                         [[1.0, 0.125, 0.0, 0.0, 1.0, 0.0, 0.0, 0.0, 1.0, -1.0, -1.0, -1.0]],
                                         [[0.0, 1.0, 0.0, -1.0, 0.0, 0.0, 0.0, 0.0, 1.0, 1.0, -1.0, -1.0]],
                                         [[0.0, 1.0, 0.25, -1.0, 0.0, 0.0, 0.0, 0.0, 1.0, 1.0, -1.0, -1.0]]], use_grids=False, wt=True),
+        _cfg("w_vector1d", [_var(kind=4)], [[[1.0, 0.0, 0.5, 0.0, 0.25, 0.0]], [[1.0, 0.25, 0.5, 0.0, 0.25, 0.0]], [[0.5, 0.25, 0.5, 0.25, 0.25, 0.0]],
+                                            [[0.5, 0.5, 0.0, 0.5, 0.0, 0.25]]], use_grids=False, wt=True),
         _cfg("w_unit3", [_var(kind=2)], [[[1.0, 0.0, 0.5]], [[1.0, 0.25, 0.5]], [[0.5, 0.25, 0.5]], [[0.5, 0.5, 0.0]]], use_grids=False),
     ]
 
@@ -1240,8 +1408,21 @@ def check_one(run, c, impl, mo, txt, rcv, o, traj, mline):
     run.dist("vector_vars", sum(1 for v in c["vars"] if v["kind"] == 1))
     run.dist("unit_vector_vars", sum(1 for v in c["vars"] if v["kind"] == 2))
     run.dist("quaternion_vars", sum(1 for v in c["vars"] if v["kind"] == 3))
+    run.dist("vector1d_vars", sum(1 for v in c["vars"] if v["kind"] == 4))
     run.dist("steps", len(impl))
-    for kk in ("deposits", "projections", "outside_steps", "expansions", "saves", "wt_outside", "wrapped_steps", "restarts", "rebins", "antipodal_steps", "ebmeta_deposits", "reloads", "rebins_from_grids", "bound_checks", "pmf_files", "reconfs", "hetero_steps"):
+    run.dist("second_bias_steps", o.count("BIAS m2 "))
+    run.dist("rejected_configs", o.count("CONFIG err=") - o.count("CONFIG err=ok"))
+    if c["it0"] >= 2 ** 31 - 3:
+        run.dist("start_step_beyond_2^31")
+    if c.get("scale"):
+        run.dist("rescaled_2^%d" % c["scale"])
+    if c.get("medium") == "mem" and has_restart(c):
+        run.dist("state_from_buffer_or_string")
+    if c["keep"] and c["use_grids"] and any(e[0] == "reconf" and not e[1].get("keep", True) for e in c["events"]):
+        run.dist("keepHills_switched_off")
+    if any(e[0] == "breload" for e in c["events"]):
+        run.dist("bias_level_reload")
+    for kk in ("deposits", "projections", "outside_steps", "expansions", "saves", "wt_outside", "wrapped_steps", "restarts", "rebins", "antipodal_steps", "ebmeta_deposits", "reloads", "rebins_from_grids", "bound_checks", "pmf_files", "reconfs", "hetero_steps", "asleep_steps"):
         run.dist(kk, facts[kk])
     d_ = run.cov["distribution"]
     d_["bound_max_ratio"] = max(d_.get("bound_max_ratio", 0.0), facts["bound_max_ratio"])
@@ -1250,6 +1431,10 @@ def check_one(run, c, impl, mo, txt, rcv, o, traj, mline):
         run.dist("oracle:" + sig)
         run.violation(sig, text, dict(replay_d, step=n))
     # tie
+    impl_all = impl
+    impl = [im for im, t in zip(impl_all, steps_of(c)) if t[0] % c.get("tsf", 1) == 0]
+    if not impl:
+        return          # the bias slept at every step of this history (timeStepFactor): nothing to tie
     if mo is None or len(mo) != len(impl):
         run.mismatch("model-output", {"model_case": mline}, len(impl), None if mo is None else len(mo))
         return
@@ -1260,7 +1445,7 @@ def check_one(run, c, impl, mo, txt, rcv, o, traj, mline):
             run.violation("ebmeta:target-normalisation", "target distribution as used by ebMeta %s, expected (raw values raised to 1e-6 "
                           "of the maximum, normalised, times exp(entropy)) %s" % (dumps[:1], tp), replay_d)
     mp, ip = c.get("_model_pmf") or [], [d_[1] for d_ in (c.get("_pmf_dump") or [])]
-    if len(mp) != len(ip) or any(not vec_close(a, b) for a, b in zip(ip, mp)):
+    if not c.get("eb") and (len(mp) != len(ip) or any(not vec_close(a, b) for a, b in zip(ip, mp))):
         run.mismatch("pmf", dict(replay_d), ip[:2], mp[:2])
     mt, it_ = c.get("_model_traj"), c.get("_last_traj")
     if mt is not None and it_ is not None:
@@ -1303,7 +1488,7 @@ def gen_replica_case(r, k):
     """two walkers sharing their hills through files: B runs first (alone in the registry), then A, which reads the
     state and the hills of B at its steps that are multiples of replicaUpdateFrequency"""
     nd = r.choice([1, 1, 2])
-    f = {"nd": nd, "use_grids": r.random() < 0.8, "p_expand": 0.0, "p_eb": 0.0, "p_restart": 0.0, "p_save": 0.0, "p_pmf": 0.0,
+    f = {"nd": nd, "use_grids": r.random() < 0.8, "p_expand": 0.0, "p_eb": 0.0, "p_restart": 0.0, "p_save": 0.0, "p_pmf": 0.0, "p_tsf": 0.0,
          "keep": False, "p_vector": 0.0, "periodic": False, "p_out": r.choice([0.1, 0.3])}
     A = gen_scn(r, "ra%s" % k, dict(f))
     B = json.loads(json.dumps(A))
@@ -1322,14 +1507,23 @@ def gen_replica_case(r, k):
     ruf = r.choice([1, 2, 3, 4])
     if r.random() < 0.6:
         A["it0"] = r.randint(1, 7)       # the first step of A is then usually not one at which the replicas are read
-    for c, rid, u in ((A, "A", ruf), (B, "B", 1000)):
+    others = [B]
+    if r.random() < 0.5:
+        # a third walker (started at step 1 with replicaUpdateFrequency 1000: it never reads the files of the second)
+        C = json.loads(json.dumps(B))
+        C["id"] = "rc%s" % k
+        C["it0"] = 1
+        C["events"] = [("step", False, [v["lower"] + r.randint(-8, v["nx"] * 4 + 8) * v["w"] / 4 for v in A["vars"]]) for _ in range(r.randint(3, 9))]
+        others.append(C)
+    for c, rid, u in [(A, "A", ruf)] + [(o_, "BCD"[i_], 1000) for i_, o_ in enumerate(others)]:
+        c["noise"] = []
         c["pmf"] = c["pmf_keep"] = False
         c["binary"] = False
         c["meta_extra"] = ["multipleReplicas on", "replicaID %s" % rid, "replicasRegistry %s" % reg, "replicaUpdateFrequency %d" % u]
         c["outprefix"] = "c05w%s_%s" % (rid, k)
     A["ruf"] = ruf
     A["registry"] = reg
-    return A, B
+    return A, others
 
 
 def replica_oracle(c, impl, traj, fhills):
@@ -1388,17 +1582,18 @@ def fixed_replica_case():
         c["meta_extra"] = ["multipleReplicas on", "replicaID %s" % rid, "replicasRegistry c05_reg_w.txt", "replicaUpdateFrequency %d" % u]
         c["outprefix"] = "c05w%s_w" % rid
     A["ruf"] = 2
-    return A, B
+    return A, [B]
 
 
-def replica_cases(run, exe, r, d, ncases):
+def replica_cases(run, exe, r, d, ncases, model=None):
+    ties = []
     for k in ["w"] + list(range(ncases)):
-        A, B = fixed_replica_case() if k == "w" else gen_replica_case(r, k)
+        A, others = fixed_replica_case() if k == "w" else gen_replica_case(r, k)
         for fn in os.listdir(d):
             if fn.startswith("c05w") or fn.startswith("c05_reg_") or fn.endswith(".files.txt"):
                 os.remove(os.path.join(d, fn))
         outs = []
-        for c in (B, A):
+        for c in others + [A]:
             sc = os.path.join(d, "s%s.scn" % c["id"])
             txt = scenario_text(c, True)
             open(sc, "w").write(txt)
@@ -1410,24 +1605,86 @@ def replica_cases(run, exe, r, d, ncases):
             except (ValueError, IndexError, KeyError):
                 impl, traj = None, None
             outs.append((c, txt, rcv, o, impl, traj))
-        rp = {"kind": "replicas", "scenario_B": outs[0][1], "scenario": outs[1][1]}
+        rp = {"kind": "replicas", "scenario_others": [t[1] for t in outs[:-1]], "scenario": outs[-1][1]}
         ok = all(rcv == 0 and impl is not None and traj is not None and len(impl) == len(step_events(c)) and
                  all("E" in s_ and "F" in s_ for s_ in impl) and "OUTPREFIX err=ok" in o for (c, txt, rcv, o, impl, traj) in outs)
         if not ok:
             run.count("replicas%s" % k, False)
             run.violation("crash", "a walker of a two-replica run died or lost the bias (rc=%s)" % [t[2] for t in outs], rp)
             continue
-        badB, _ = oracle(B, outs[0][4], outs[0][5])
+        badB = None
+        for t in outs[:-1]:
+            badB = badB or oracle(t[0], t[4], t[5])[0]
         if badB:
             run.count("replicas%s" % k, False)
             run.violation("replicas:first-walker:" + badB[0], badB[1], rp)
             continue
-        bad, nrec = replica_oracle(A, outs[1][4], outs[1][5], outs[0][5])
-        run.count("replicas%s" % k, nrec >= 2 and len(outs[0][5]) >= 1)
+        fh_ = [h for t in outs[:-1] for h in t[5]]
+        bad, nrec = replica_oracle(A, outs[-1][4], outs[-1][5], fh_)
+        run.count("replicas%s" % k, nrec >= 2 and len(fh_) >= 1)
         run.dist("replica_cases")
+        run.dist("walkers=%d" % len(outs))
         run.dist("replica_steps_with_foreign_hills", nrec)
         if bad:
             run.violation(bad[0], bad[1], dict(rp, step=bad[2]))
+        elif model and not A["wt"]:
+            # tie with the model: own state + one mirror object holding the hills received (C05_replicas_energy/_force);
+            # well-tempered walkers are left to the oracle (the model's own heights do not see the mirrors)
+            stA = steps_of(A)
+            first = [n for n, t in enumerate(stA) if t[0] % A["ruf"] == 0]
+            if first:
+                ties.append((A, outs[-1][4], model_case(A, [s_["cv"] for s_ in outs[-1][4]], False, (first[0], fh_)), rp))
+    if ties:
+        rc, mout, e = V.run_lines(model, [t[2] for t in ties], timeout=600)
+        for k, (A, impl, mline, rp) in enumerate(ties):
+            try:
+                mo = parse_model(A, mout[k]) if k < len(mout) else None
+            except (ValueError, IndexError, KeyError):
+                mo = None
+            run.dist("replica_model_ties")
+            if mo is None or len(mo) != len(impl):
+                run.mismatch("replicas-model-output", dict(rp, model_case=mline), len(impl), None if mo is None else len(mo))
+                continue
+            for n, (im, ms) in enumerate(zip(impl, mo)):
+                if not close(im["E"], ms["E"]) or not force_close(im["F"], ms["F"]):
+                    run.mismatch("replicas-energy", dict(rp, model_case=mline, step=n), {"E": im["E"], "F": im["F"]}, {"E": ms["E"], "F": ms["F"]})
+                    break
+
+
+def keep_witness(run, exe, d):
+    """keepHills switched on between two runs, then rebinGrids: the first run (keepHills off) leaves three hills at 10.5 in the
+    grids only; the second (keepHills on) adds two at 5.5; the third rebins onto [2,18).  Rebinning must change nothing:
+    the energy at 10.5 is that of all five hills at the centre of its bin (outside the model: oracle only)"""
+    c = _cfg("w_keep_on", [_var(nx=20)], [[10.5], [10.5], [10.5], [10.5]])
+    c2 = dict(c, keep=True)
+    first, natoms = atoms_of(c)
+    L = scenario_text(c, False).split("\n")
+    L = [l for l in L if l and l != "metatraj m"]
+    L += ["save text c05k1.state", "new"] + config_text(c2) + ["load c05k1.state"]
+    for z in (10.5, 5.5, 5.5, 4.5):
+        L += ["pos 1 0 0 %s" % V.hexf(z), "step", "metadump m 0"]
+    L += ["save text c05k2.state", "new"] + config_text(c2, [(16, 2.0, 18.0)], True) + ["load c05k2.state"]
+    for z in (4.5, 10.5, 1.5):
+        L += ["pos 1 0 0 %s" % V.hexf(z), "step", "metadump m 0"]
+    txt = "\n".join(L) + "\n"
+    sc = os.path.join(d, "keep_on.scn")
+    open(sc, "w").write(txt)
+    rcv, o, ev = V.sh([exe, sc], cwd=d, timeout=120)
+    os.remove(sc)
+    en = [fh(l.split()[1]) for l in o.split("\n") if l.startswith("MENERGY")]
+    ok = rcv == 0 and len(en) == 11 and o.count("LOAD err=ok") == 2
+    run.count("w_keep_on", ok)
+    if not ok:
+        run.violation("crash", "keepHills switched on between runs, then rebinGrids: failed (rc=%d, %d energies)" % (rcv, len(en)), {"kind": "scenario", "scenario": txt})
+        return
+    sg = [1.0]
+    hills = [(1, 1.0, [[10.5]], sg), (2, 1.0, [[10.5]], sg), (3, 1.0, [[10.5]], sg), (4, 1.0, [[5.5]], sg), (5, 1.0, [[5.5]], sg), (6, 1.0, [[4.5]], sg)]
+    # third run: first step at 4.5 (step 6, no hill), then 10.5 at step 7 (a hill there, pending), then 1.5 (off the new grid)
+    exp_on = esum(c, [[10.5]], hills) + 1.0
+    if not close(en[9], exp_on):
+        run.violation("keepHills:switched-on-then-rebin-loses-hills",
+                      "keepHills off for steps 0-3 (three hills at 10.5), on from step 3 (hills at 5.5, 5.5, 4.5), rebinGrids onto [2,18) at step 6: "
+                      "energy at 10.5 at step 7 is %r, the hills deposited give %r" % (en[9], exp_on), {"kind": "scenario", "scenario": txt})
 
 
 def setup():
@@ -1489,7 +1746,8 @@ def check(run):
             nsample += 1
             run.sample({"scenario": txt.split("\n")[:45], "last_step": {k: impl[-1].get(k) for k in ("it", "E", "F", "nhills", "nnew", "noff", "geom")}})
     reload_witness(run, exe, d)
-    replica_cases(run, exe, r, d, 8 if quick else 200)
+    keep_witness(run, exe, d)
+    replica_cases(run, exe, r, d, 8 if quick else 200, model)
     run.cov["correspondence"].update({"scenarios": len(cs)})
 
 
